@@ -90,4 +90,9 @@ p = "jaxtyping/_decorator.py"; s = open(p).read()
 a = s.index("def _get_problem_arg("); b = s.index("def _remove_typing")
 body = s[a:b].replace("new_parameters", "rebuilt").replace("keep_name", "kept").replace("keep_annotation", "kept_ann").replace("sentinel", "missing").replace("p_name", "pname")
 open(p, "w").write(s[:a] + body + s[b:])
+p = "jaxtyping/_storage.py"; s = open(p).read()
+a = s.index("def shape_str("); b = s.index("def print_bindings")
+body = s[a:b].replace("pieces", "out_lines").replace("for name, size in", "for axis, n in").replace("name: size", "axis: n").replace('f"{name}={size}"', 'f"{axis}={n}"')
+body = body.replace("        if not name.startswith(\"~~delete~~\")\n    }\n    variadic_memo", "        if not axis.startswith(\"~~delete~~\")\n    }\n    variadic_memo")
+open(p, "w").write(s[:a] + body + s[b:])
 print(dst)
